@@ -277,27 +277,29 @@ theorem Prog.size_pos_of_startsWithLeaf {α : Type} {p : Prog α} (h : p.startsW
   | group => cases h
   | fn => cases h
 
-theorem tinv_of_wf : ∀ (p : Prog Tok) (i : Nat), p.wf = true →
+/-- the function / block invariant needs the structural conditions only (`wfCore`; the
+canonical-fragment restriction `noAdj` plays no role) -/
+theorem tinv_of_wfCore : ∀ (p : Prog Tok) (i : Nat), p.wfCore = true →
     TInv i (i + p.size) (fnsOf p i) (blocksOf p i)
   | .nil, i, _ => TInv.nil _ _
   | .leaf _ rest, i, h => by
-    simp only [Prog.wf, Bool.and_eq_true] at h
-    have := tinv_of_wf rest (i + 1) h.2
+    simp only [Prog.wfCore, Bool.and_eq_true] at h
+    have := tinv_of_wfCore rest (i + 1) h.2
     simp only [Prog.size, fnsOf, blocksOf]
     exact this.mono (by omega) (by omega)
   | .group _ _ items rest, i, h => by
-    simp only [Prog.wf, Bool.and_eq_true] at h
-    have h1 := (tinv_of_wf items (i + 1) h.1.2).wrap (by omega)
-    have h2 := tinv_of_wf rest (i + items.size + 2) h.2
+    simp only [Prog.wfCore, Bool.and_eq_true] at h
+    have h1 := (tinv_of_wfCore items (i + 1) h.1.2).wrap (by omega)
+    have h2 := tinv_of_wfCore rest (i + items.size + 2) h.2
     rw [show i + 1 + items.size + 1 = i + items.size + 2 by omega] at h1
     have := h1.append h2 (by omega) (by omega)
     simp only [Prog.size, fnsOf, blocksOf]
     rw [show i + (items.size + rest.size + 2) = i + items.size + 2 + rest.size by omega]
     exact this
   | .fn hdr k gap _ _ body rest, i, h => by
-    simp only [Prog.wf, Bool.and_eq_true, decide_eq_true_eq] at h
-    obtain ⟨⟨⟨⟨⟨⟨⟨⟨⟨⟨hsl, hnf⟩, hwh⟩, hk⟩, hnm⟩, hgap⟩, hop⟩, hcl⟩, hwb⟩, hadj⟩, hwr⟩ := h
-    have hH := tinv_of_wf hdr i hwh
+    simp only [Prog.wfCore, Bool.and_eq_true, decide_eq_true_eq] at h
+    obtain ⟨⟨⟨⟨⟨⟨⟨⟨⟨hsl, hnf⟩, hwh⟩, hk⟩, hnm⟩, hgap⟩, hop⟩, hcl⟩, hwb⟩, hwr⟩ := h
+    have hH := tinv_of_wfCore hdr i hwh
     rw [fnsOf_noFn hdr i hnf] at hH
     have hH' : TInv (i + 1) (i + hdr.size) [] (blocksOf hdr i) :=
       ⟨fun _ h => (by cases h),
@@ -305,8 +307,8 @@ theorem tinv_of_wf : ∀ (p : Prog Tok) (i : Nat), p.wf = true →
          have := hH.bb b hb; have := blocksOf_startsWithLeaf hsl i b hb; omega),
        .nil, hH.bs, fun _ h => (by cases h), fun _ h => (by cases h)⟩
     have hpos := Prog.size_pos_of_startsWithLeaf hsl
-    have hB := tinv_of_wf body (i + hdr.size + gap.length + 1) hwb
-    have hR := tinv_of_wf rest (i + hdr.size + gap.length + body.size + 2) hwr
+    have hB := tinv_of_wfCore body (i + hdr.size + gap.length + 1) hwb
+    have hR := tinv_of_wfCore rest (i + hdr.size + gap.length + body.size + 2) hwr
     have hF := TInv.fn (nm := hdr.flat.getD k default) (lo := i) (he := i + hdr.size)
       (bs := i + hdr.size + gap.length) (be := i + hdr.size + gap.length + body.size + 2)
       hH' (hB.mono (Nat.le_refl _) (by omega)) (by omega) (by omega) (by omega)
@@ -333,5 +335,10 @@ theorem Prog.wf_iff : ∀ (p : Prog Tok), p.wf = true ↔ p.wfCore = true ∧ p.
 
 theorem Prog.wf_of {p : Prog Tok} (h1 : p.wfCore = true) (h2 : p.noAdj = true) : p.wf = true :=
   (Prog.wf_iff p).mpr ⟨h1, h2⟩
+
+/-- the invariant for `wf` forests (corollary of `tinv_of_wfCore`) -/
+theorem tinv_of_wf (p : Prog Tok) (i : Nat) (h : p.wf = true) :
+    TInv i (i + p.size) (fnsOf p i) (blocksOf p i) :=
+  tinv_of_wfCore p i ((Prog.wf_iff p).mp h).1
 
 end CL
